@@ -515,6 +515,11 @@ CHECKS = {
          "the deprecated absolute UserFormURL is not exercised"],
         world=True),
     "C20": c20_check,
+    "C04": composed_check("C04",
+        [dict(module="RequestObject", sub="tbl-reqobj", prefixes=("C04.",), sig=lambda o: c14r_sig(o) + f":qpkce={o['c']['qpkce']}:opkce={o['c']['opkce']}", need=lambda o: c14r_need(o),
+              label="request object table (PKCE challenge of the stored request)", required=["P:login:obj", "L:login:obj"])],
+        ["request objects: the PKCE challenge (value and transformation) stored for the request is the object's when the object counts and carries one, else the query's "
+         "(spec/RequestObject.tla, rule C04.reqobj.pkce) - the token endpoint holds the code_verifier against exactly that pair"]),
     "C19": simple_table_check(
         [dict(module="Discovery", sub="tbl-discovery", prefixes=("C19.",), sig=c19_sig, need=c19_need, label="discovery table",
               required=["config:P:host:default", "config:L:host:custom", "config:P:path:custom", "config:L:path:default", "config:P:dynamicHost:default", "config:L:dynamicHost:custom", "config:L:host:legacyOwn", "config:L:path:legacyNoDevice",
